@@ -372,6 +372,73 @@ static void samplerCase(vf::Src &s, vf::Ctx &c)
         double got = smp->getInformedMeasure(ob::Cost(cost));
         VCHECK(c, std::fabs(got - want) <= 1e-9 * want, "C15/informed-measure", "getInformedMeasure(%.9g) = %.12g, analytic %.12g (n=%u, %d x %d foci pairs)", cost, got, want, n, ns, ng);
     }
+    // a second bound on the *same* sampler object (decoded last): planners call one sampler with a sequence of bounds. A smaller bound must
+    // be honoured at once; after a larger one the states between the two bounds must be reachable again ("no state that could improve the
+    // solution is excluded"). How much of the larger region lies between the bounds is estimated with 3000 uniformly drawn states of the
+    // space (local seed from the case); the existence clause is only asserted when that share is at least one half and 40 samples
+    // succeeded, so that a correct sampler fails it with probability < 1e-12.
+    if (s.chance(128))
+    {
+        bool larger = s.chance(160);
+        double cost2 = larger ? cost * s.real(1.3, 3) : dMin + (cost - dMin) * s.real(0.2, 0.9);
+        ob::StateSamplerPtr us = sp->allocStateSampler();
+        ob::State *u = si->allocState();
+        owned.push_back(u);
+        int inside = 0, shell = 0;
+        for (int k = 0; k < 3000; ++k)
+        {
+            us->sampleUniform(u);
+            double h = smp->heuristicSolnCost(u).value();
+            if (h < std::min(cost, cost2))
+                ++inside;
+            else if (h < std::max(cost, cost2))
+                ++shell;
+        }
+        double share = inside + shell > 0 ? (double)shell / (inside + shell) : 0;
+        int succ2 = 0, inShell = 0;
+        for (int k = 0; k < 64; ++k)
+        {
+            bool ok;
+            try
+            {
+                ok = smp->sampleUniform(st, ob::Cost(cost2));
+            }
+            catch (const ompl::Exception &e)
+            {
+                throw vf::Skip{std::string("sampling rejected: ") + e.what()};
+            }
+            if (!ok)
+                continue;
+            ++succ2;
+            double h = smp->heuristicSolnCost(st).value();
+            VCHECK(c, sp->satisfiesBounds(st), "C15/out-of-bounds" + key, "a successful informed sample is outside the space bounds (second bound on one sampler)");
+            VCHECK(c, h < cost2 * (1 + 1e-9) + ea, "C15/not-below-bound" + key, "second bound %.12g on the same sampler (first %.12g): sample has heuristic solution cost %.12g", cost2,
+                   cost, h);
+            if (h >= cost)
+                ++inShell;
+        }
+        c.note("second bound %.6g on the same sampler: %d of 64 succeeded, %d between the bounds, estimated share %.3f\n", cost2, succ2, inShell, share);
+        c.count(larger ? "second-bound:larger" : "second-bound:smaller");
+        if (larger && share >= 0.5 && succ2 >= 40)
+        {
+            c.count("second-bound:existence-judged");
+            VCHECK(c, inShell > 0, "C15/states-excluded-after-larger-bound" + key,
+                   "bound %.9g then %.9g on one sampler: none of %d successful samples has a cost between the bounds although %.0f%% of the larger region lies there", cost,
+                   cost2, succ2, 100 * share);
+            // the two-bound form must find these states as well
+            int ok2 = 0;
+            for (int k = 0; k < 30; ++k)
+                if (smp->sampleUniform(st, ob::Cost(cost), ob::Cost(cost2)))
+                {
+                    ++ok2;
+                    double h = smp->heuristicSolnCost(st).value();
+                    VCHECK(c, h >= cost * (1 - 1e-9) - ea && h < cost2 * (1 + 1e-9) + ea, "C15/two-bound-sample-outside" + key, "two-bound sample with cost %.12g outside [%.12g, %.12g)", h,
+                           cost, cost2);
+                }
+            VCHECK(c, ok2 > 0, "C15/states-excluded-after-larger-bound" + key, "bounds [%.9g, %.9g) on one sampler: 30 two-bound calls all failed although %.0f%% of the region lies there",
+                   cost, cost2, 100 * share);
+        }
+    }
     c.count(succ ? "samples:some-successful" : "samples:none");
     c.nontrivial = succ > 0 && (cost < 2 * dMin || nearBound || ns * ng >= 2);
 }
